@@ -103,7 +103,8 @@ Definition covered (c : cls) : bool := (c_exported c && c_imported c)%bool.
 Definition audit_consistent (c : cls) (k : audit_kind) : bool :=
   match k with
   | Derived => (negb (c_exported c) && c_imported c)%bool
-  | Lost => (negb (c_imported c) && c_used c)%bool
+  (* a class listed as lost stays acceptable once InitGenesis starts rebuilding it (repaired tree) *)
+  | Lost => ((negb (c_imported c) && c_used c) || (negb (c_exported c) && c_imported c))%bool
   | Transient => (negb (c_exported c) && negb (c_imported c) && c_used c)%bool
   | Unused => (negb (c_exported c) && negb (c_imported c))%bool
   end.
@@ -133,11 +134,20 @@ Definition status_of (store name : string) : status :=
   | None => SUnknown
   | Some c =>
       if covered c then SCovered
+      else if c_imported c then SDerived              (* written by InitGenesis from other exported data *)
       else match audit_of (c_module c) (c_name c) audited with
-           | Some Derived => SDerived | Some Lost => SLost | Some Transient => STransient | Some Unused => SUnused
-           | None => if c_imported c then SDerived else SLost     (* unaudited: predicted from the flags *)
+           | Some Transient => STransient | Some Unused => SUnused
+           | _ => SLost
            end
   end.
+
+(* which keeper functions InitGenesis reaches (regenerated): the hand models below follow these flags *)
+Fixpoint calls_of (m : string) (l : list (string * list string)) : list string :=
+  match l with [] => [] | (m', fs) :: r => if String.eqb m m' then fs else calls_of m r end.
+Definition init_calls (m f : string) : bool := str_in f (calls_of m import_calls).
+Definition gov_restores_blacklists : bool := init_calls "gov" "BlacklistRolePermission".
+Definition gov_rebuilds_queues : bool := (init_calls "gov" "AddToActiveProposals" && init_calls "gov" "AddToEnactmentProposals")%bool.
+Definition ms_restores_counters : bool := (init_calls "multistaking" "SetLastPoolId" && init_calls "multistaking" "SetLastUndelegationId")%bool.
 
 (* ---- abstract module state: contents per class.  Export keeps the exported classes, import
    writes the imported ones; a derived class is recomputed from the genesis by [derive]. *)
@@ -184,22 +194,28 @@ Fixpoint lookup_perms (id : Z) (l : list (Z * perms)) : option perms :=
 (* Permissions.AddToWhitelist: rejected when blacklisted or already whitelisted (InitGenesis ignores the error) *)
 Definition add_whitelist (p : perms) (w : Z) : perms :=
   if (zmem w (bl p) || zmem w (wl p))%bool then p else mkPerms (wl p ++ [w]) (bl p).
+(* Permissions.AddToBlacklist: rejected when whitelisted or already blacklisted *)
+Definition add_blacklist (p : perms) (b : Z) : perms :=
+  if (zmem b (wl p) || zmem b (bl p))%bool then p else mkPerms (wl p) (bl p ++ [b]).
 (* what InitGenesis makes of one exported Permissions value: SetRole wrote empty permissions, then every
-   whitelisted value goes through WhitelistRolePermission; the blacklist loop is commented out *)
-Definition import_perms (p : perms) : perms := fold_left add_whitelist (wl p) empty_perms.
+   whitelisted value goes through WhitelistRolePermission; the blacklist loop exists only when [blk]
+   (it is commented out in the unrepaired tree) *)
+Definition import_perms (blk : bool) (p : perms) : perms :=
+  let q := fold_left add_whitelist (wl p) empty_perms in
+  if blk then fold_left add_blacklist (bl p) q else q.
 
 Record roles_genesis := mkRolesGen { g_roles : list Z; g_perms : list (Z * perms); g_next_role : Z }.
 Definition export_roles (s : roles_state) : roles_genesis := mkRolesGen (infos s) (registry s) (next_role s).
 Definition index_of_perms (id : Z) (p : perms) : list (Z * Z) := map (fun w => (w, id)) (wl p).
-Definition import_roles (g : roles_genesis) : roles_state :=
-  let reg := map (fun id => (id, match lookup_perms id (g_perms g) with Some p => import_perms p | None => empty_perms end)) (g_roles g) in
+Definition import_roles (blk : bool) (g : roles_genesis) : roles_state :=
+  let reg := map (fun id => (id, match lookup_perms id (g_perms g) with Some p => import_perms blk p | None => empty_perms end)) (g_roles g) in
   mkRoles reg (g_roles g) (flat_map (fun e => index_of_perms (fst e) (snd e)) reg) (g_next_role g).
-Definition reimport_roles (s : roles_state) : roles_state := import_roles (export_roles s).
+Definition reimport_roles (blk : bool) (s : roles_state) : roles_state := import_roles blk (export_roles s).
 
 (* reachable shape of the role state (what SetRole / DeleteRole / Whitelist* / Blacklist* maintain) *)
 Definition roles_wf (s : roles_state) : Prop :=
   infos s = map fst (registry s) /\ NoDup (map fst (registry s)) /\
-  (forall id p, In (id, p) (registry s) -> NoDup (wl p)) /\
+  (forall id p, In (id, p) (registry s) -> NoDup (wl p) /\ NoDup (bl p) /\ (forall x, In x (wl p) -> ~ In x (bl p))) /\
   (forall e, In e (windex s) <-> In e (flat_map (fun e => index_of_perms (fst e) (snd e)) (registry s))).
 Definition no_blacklists (s : roles_state) : Prop := forall id p, In (id, p) (registry s) -> bl p = [].
 
@@ -214,9 +230,21 @@ Inductive presult := Pending | Enactment | Passed | Rejected.
 Record proposal := mkProp { p_id : Z; p_result : presult; p_voting_end : Z; p_enact_end : Z }.
 Record props_state := mkProps { proposals : list proposal; active_q : list Z; enact_q : list Z; next_prop : Z }.
 Definition export_props (s : props_state) : list proposal * Z := (proposals s, next_prop s).
-(* InitGenesis: SaveProposal for every proposal, SetNextProposalID; neither queue is written *)
-Definition import_props (g : list proposal * Z) : props_state := mkProps (fst g) [] [] (snd g).
-Definition reimport_props (s : props_state) : props_state := import_props (export_props s).
+(* InitGenesis: SaveProposal for every proposal, SetNextProposalID.  Unrepaired tree: neither queue is
+   written.  With [rebuild]: a Pending proposal goes back to the active queue; a proposal waiting for
+   enactment, or a failed one whose enactment period is not over at genesis time [now], to the
+   enactment queue (block-height conditions are not modelled). *)
+Definition in_voting (p : proposal) : bool := match p_result p with Pending => true | _ => false end.
+Definition in_enactment (now : Z) (p : proposal) : bool :=
+  match p_result p with Enactment => true | Rejected => now <? p_enact_end p | _ => false end.
+Definition import_props (rebuild : bool) (now : Z) (g : list proposal * Z) : props_state :=
+  if rebuild then mkProps (fst g) (map p_id (filter in_voting (fst g))) (map p_id (filter (in_enactment now) (fst g))) (snd g)
+  else mkProps (fst g) [] [] (snd g).
+Definition reimport_props (rebuild : bool) (now : Z) (s : props_state) : props_state := import_props rebuild now (export_props s).
+(* the queues hold exactly the proposals in the respective phase (what submit / EndBlocker maintain) *)
+Definition queues_sound (now : Z) (s : props_state) : Prop :=
+  (forall id, In id (active_q s) <-> In id (map p_id (filter in_voting (proposals s)))) /\
+  (forall id, In id (enact_q s) <-> In id (map p_id (filter (in_enactment now) (proposals s)))).
 
 Section EndBlock.
   Variable decide : Z -> presult.        (* outcome of the tally of a proposal whose voting ended *)
@@ -246,9 +274,12 @@ Record ms_state := mkMsState {
   delegators : list (Z * Z);        (* pool id, delegator *)
   compound : list Z }.
 Definition export_ms (s : ms_state) : list (Z * Z) * list (Z * Z) := (pools s, undels s).
-(* InitGenesis: SetStakingPool, SetUndelegation (and rewards); no counter, no delegator index, no compound info *)
-Definition import_ms (g : list (Z * Z) * list (Z * Z)) : ms_state := mkMsState 0 0 (fst g) (snd g) [] [].
-Definition reimport_ms (s : ms_state) : ms_state := import_ms (export_ms s).
+(* InitGenesis: SetStakingPool, SetUndelegation (and rewards); no delegator index, no compound info.
+   Unrepaired tree: no counter either.  With [ctr]: each counter continues after the highest imported id. *)
+Definition zmax_list (l : list Z) : Z := fold_right Z.max 0 l.
+Definition import_ms (ctr : bool) (g : list (Z * Z) * list (Z * Z)) : ms_state :=
+  mkMsState (if ctr then zmax_list (map fst (fst g)) else 0) (if ctr then zmax_list (map fst (snd g)) else 0) (fst g) (snd g) [] [].
+Definition reimport_ms (ctr : bool) (s : ms_state) : ms_state := import_ms ctr (export_ms s).
 
 Fixpoint upsert (k v : Z) (l : list (Z * Z)) : list (Z * Z) :=
   match l with
@@ -304,3 +335,42 @@ Definition upgrade_refuses_own_export : bool := is_panic upgrade_reimport.
    declared without initialiser the export panics as soon as the registry holds one entry *)
 Definition gov_export_panics (registry_populated : bool) : bool :=
   (str_in "gov.AllDataRegistry" export_nil_map_writes && registry_populated)%bool.
+
+(* ================================================================ 2f. gov identity registrar (x/gov/genesis.go, keeper/identity_registrar.go) *)
+
+(* a record: id |-> (owner, key) coded as one number; the by-address index: (owner, key) |-> id *)
+Record id_state := mkId { id_records : list (Z * Z); id_index : list (Z * Z); id_last : Z }.
+Definition export_id (s : id_state) : list (Z * Z) * Z := (id_records s, id_last s).
+(* InitGenesis: SetIdentityRecord for every record (store.Set of the record under its id and of the id
+   under owner+key: both overwrite), then SetLastIdentityRecordId *)
+Definition set_record (s : list (Z * Z) * list (Z * Z)) (r : Z * Z) : list (Z * Z) * list (Z * Z) :=
+  (upsert (fst r) (snd r) (fst s), upsert (snd r) (fst r) (snd s)).
+Definition import_id (g : list (Z * Z) * Z) : id_state :=
+  let st := fold_left set_record (fst g) ([], []) in mkId (fst st) (snd st) (snd g).
+Definition reimport_id (s : id_state) : id_state := import_id (export_id s).
+Definition swap_pair (r : Z * Z) : Z * Z := (snd r, fst r).
+(* ids are unique, an owner has one record per key, the index points at exactly the stored records *)
+Definition id_wf (s : id_state) : Prop :=
+  NoDup (map fst (id_records s)) /\ NoDup (map snd (id_records s)) /\
+  (forall e, In e (id_index s) <-> In e (map swap_pair (id_records s))).
+
+(* ================================================================ 2g. distributor (x/distributor/module.go, keeper/store.go) *)
+
+Record distr_state := mkDistr {
+  d_treasury : Z; d_snap_period : Z; d_votes : list (Z * Z) (* validator, height *);
+  d_proposer : option Z; d_year_snapshot : Z * Z; d_periodic_snapshot : Z * Z }.
+Record distr_genesis := mkDistrGen {
+  dg_treasury : Z; dg_snap_period : Z; dg_votes : list (Z * Z); dg_proposer : Z; dg_year : Z * Z; dg_periodic : Z * Z }.
+(* ExportGenesis: GetPreviousProposerConsAddr panics when no block has run yet *)
+Definition export_distr (s : distr_state) : outcome distr_genesis :=
+  match d_proposer s with
+  | None => Panic "previous proposer not set"
+  | Some p => Ok (mkDistrGen (d_treasury s) (d_snap_period s) (d_votes s) p (d_year_snapshot s) (d_periodic_snapshot s))
+  end.
+Definition vote_mem (v : Z * Z) (l : list (Z * Z)) : bool := existsb (fun w => ((fst w =? fst v) && (snd w =? snd v))%bool) l.
+(* SetValidatorVote: the key is validator ++ height, the value the height: setting an existing vote changes nothing *)
+Definition set_vote (l : list (Z * Z)) (v : Z * Z) : list (Z * Z) := if vote_mem v l then l else l ++ [v].
+Definition import_distr (g : distr_genesis) : distr_state :=
+  mkDistr (dg_treasury g) (dg_snap_period g) (fold_left set_vote (dg_votes g) []) (Some (dg_proposer g)) (dg_year g) (dg_periodic g).
+Definition reimport_distr (s : distr_state) : outcome distr_state :=
+  match export_distr s with Ok g => Ok (import_distr g) | Err e => Err e | Panic m => Panic m end.
